@@ -297,6 +297,40 @@ let do_fileio bs ofs =
        (match List.filter (fun s -> s <> "") (String.split_on_char ' ' line) with
         | ["bad"; n] -> Hashtbl.replace badset (int_of_string n) ()
         | ["good"; n] -> Hashtbl.remove badset (int_of_string n)
+        | ["load"; path; hdr] ->
+          (* the blocks of one file of an image (volume starting at block 0 of the image), reached from its header through the tables:
+             glue for the correspondence on images ADFlib did not write (checks/c06.py); decoding = the field offsets of C03 *)
+          let img = load_image path in
+          let nb = Bytes.length img / 512 in
+          let w32 b o = if b < 0 || b >= nb then 0 else
+              (Char.code (Bytes.get img (b*512+o)) lsl 24) lor (Char.code (Bytes.get img (b*512+o+1)) lsl 16)
+              lor (Char.code (Bytes.get img (b*512+o+2)) lsl 8) lor Char.code (Bytes.get img (b*512+o+3)) in
+          let tab b = List.init 72 (fun i -> z_of_int (w32 b (24 + 4 * (71 - i)))) in
+          let bytes_of b o n = List.init n (fun i -> z_of_int (Char.code (Bytes.get img (b*512+o+i)))) in
+          let loaded : (int, fblk) Hashtbl.t = Hashtbl.create 64 in
+          let load_data b = if b > 0 && b < nb && not (Hashtbl.mem loaded b) then
+              Hashtbl.replace loaded b (BData (if ofs then { d_bytes = bytes_of b 24 488; d_next = z_of_int (w32 b 16); d_size = z_of_int (w32 b 12);
+                                                               d_seq = z_of_int (w32 b 8); d_key = z_of_int (w32 b 4) }
+                                               else { d_bytes = bytes_of b 0 512; d_next = Z0; d_size = Z0; d_seq = Z0; d_key = Z0 })) in
+          let h = int_of_string hdr in
+          if h > 0 && h < nb then begin
+            for i = 0 to 71 do load_data (w32 h (24 + 4 * i)) done;
+            load_data (w32 h 16);
+            let x = ref (w32 h 504) and guard = ref 0 in
+            while !x > 0 && !x < nb && !guard < 4000 do
+              incr guard;
+              let b = !x in
+              for i = 0 to 71 do load_data (w32 b (24 + 4 * i)) done;
+              Hashtbl.replace loaded b (BExt { x_key = z_of_int (w32 b 4); x_parent = z_of_int (w32 b 500); x_high = z_of_int (w32 b 8); x_tab = tab b; x_ext = z_of_int (w32 b 504) });
+              track b;
+              x := w32 b 504
+            done;
+            Hashtbl.replace loaded h (BHdr { h_key = z_of_int (w32 h 4); h_size = z_of_int (w32 h 324); h_first = z_of_int (w32 h 16); h_high = z_of_int (w32 h 8);
+                                             h_tab = tab h; h_ext = z_of_int (w32 h 504) })
+          end;
+          let old = !disk in
+          disk := (fun n -> match Hashtbl.find_opt loaded (int_of_z n) with Some b -> b | None -> old n);
+          st := None; print_endline "r ok"; key := h; show ()
         | ["new"; k; r; w] ->
           key := int_of_string k;
           let s = fio_new zbs !disk (z_of_int !key) (b01s r) (b01s w) in
